@@ -4,6 +4,7 @@ import (
 	"errors"
 	"fmt"
 	"reflect"
+	"sort"
 
 	sentinel "github.com/alibaba/sentinel-golang/api"
 	"github.com/alibaba/sentinel-golang/core/base"
@@ -12,6 +13,7 @@ import (
 	"github.com/alibaba/sentinel-golang/core/hotspot"
 	"github.com/alibaba/sentinel-golang/core/isolation"
 	"github.com/alibaba/sentinel-golang/core/outlier"
+	"github.com/alibaba/sentinel-golang/core/stat"
 	"github.com/alibaba/sentinel-golang/core/system"
 
 	"verifharness/env"
@@ -21,8 +23,19 @@ var probeSeq int
 
 func resetExtra() {
 	_ = outlier.ClearRules()
+	outlier.VerifResetRuntime() // node breakers, recyclers, retryers of earlier histories
 	probeSeq = 0
 }
+
+// olChain: a slot chain with the outlier slots (they are not part of the default chain).
+var olChain = func() *base.SlotChain {
+	sc := base.NewSlotChain()
+	sc.AddStatPrepareSlot(stat.DefaultResourceNodePrepareSlot)
+	sc.AddRuleCheckSlot(outlier.DefaultSlot)
+	sc.AddStatSlot(stat.DefaultSlot)
+	sc.AddStatSlot(outlier.DefaultMetricStatSlot)
+	return sc
+}()
 
 func trig(blk *base.BlockError, id func(base.SentinelRule) string) string {
 	if blk == nil {
@@ -510,7 +523,7 @@ func outlierModule() *module {
 	}
 	specs := []spec{
 		mk("a50", "a", func(r *outlier.Rule) {}),
-		mk("a30", "a", func(r *outlier.Rule) { r.MaxEjectionPercent = 0.3 }),
+		mk("a30", "a", func(r *outlier.Rule) { r.MaxEjectionPercent = 0.3; r.Rule.Threshold = 2 }),
 		mk("b50", "b", func(r *outlier.Rule) {}),
 		mk("inv-negPercent", "a", func(r *outlier.Rule) { r.MaxEjectionPercent = -0.1 }),
 		mk("inv-bigPercent", "a", func(r *outlier.Rule) { r.MaxEjectionPercent = 1.5 }),
@@ -551,6 +564,33 @@ func outlierModule() *module {
 				return false // IsValidRule itself dereferences the embedded breaker rule
 			}
 			return outlier.IsValidRule(x) == nil && cb.IsValidRule(x.Rule) == nil
+		},
+		// what governs traffic is, per known node, a breaker built from the rule in force: one successful request to
+		// a node of the resource (which makes it known while a rule is in force), then every node breaker of the
+		// resource must be bound to the rule of the most recent load - and there are none without a rule
+		Touch: func(res string) {
+			if e, blk := sentinel.Entry(res, sentinel.WithSlotChain(olChain)); blk == nil {
+				sentinel.TraceCallee(e, "node-of-"+res)
+				e.Exit()
+			}
+			outlier.VerifBarrier()
+		},
+		Probe: func(res string, enforced []string) (string, string) {
+			var got []string
+			for addr, b := range outlier.VerifNodes(res) {
+				// identified by content (a breaker whose parameters are unchanged is rightly kept, id and all)
+				id := "<nil rule>"
+				if r := b.BoundRule(); r != nil {
+					id = fmt.Sprintf("error-count threshold %v", r.Threshold)
+				}
+				got = append(got, addr+" governed by "+id)
+			}
+			sort.Strings(got)
+			want := []string{}
+			if len(enforced) == 1 {
+				want = append(want, "node-of-"+res+" governed by "+fmt.Sprintf("error-count threshold %v", map[string]float64{"a50": 1, "a30": 2, "b50": 1}[enforced[0]]))
+			}
+			return fmt.Sprint(got), fmt.Sprint(want)
 		},
 	}
 }
